@@ -8,3 +8,5 @@ from . import index          # noqa: F401
 from . import index2         # noqa: F401
 from . import cdl            # noqa: F401
 from . import wchar          # noqa: F401
+from . import dl             # noqa: F401
+from . import errno_         # noqa: F401
